@@ -124,7 +124,7 @@ class Gen:
         kind = kind or r.choice(["text", "text", "button", "image", "divider", "spacer", "table", "social", "navbar",
                                  "accordion", "carousel", "raw"])
         if kind == "text":
-            body = r.choice(["%s", "<b>%s</b> plain", "<p>%s</p><br/>x", "a &amp; %s", "<span class=\"k\">%s</span>"]) % self.sentinel()
+            body = r.choice(["%s", "<b>%s</b> plain", "<p>%s</p><br/>x", "a &amp; %s", "<span class=\"k\">%s</span>", "%s<br\n/>y<hr\t/>"]) % self.sentinel()
             n = self.node("mj-text", text=body)
             if r.random() < 0.2:
                 n["attrs"]["mj-class"] = r.choice(["cl1", "cl1 cl2", "cl2 cl1"])
